@@ -401,6 +401,16 @@ class Body:
     def pldesc(self, pl):
         l, projs = self.resolve_place(pl)
         nm = self.local_name(l)
+        if self.kind == "Closure" and l == 1 and self.raw.get("upvars"):
+            # captured variables: `(*_1).N` is upvar N; name it like the parent does (`self__field` -> self.field)
+            core = [p for p in projs if p not in ("*", "&")]
+            for u in self.raw["upvars"]:
+                up = [proj_key(e) for e in u["pl"]["p"]]
+                upc = [p for p in up if p not in ("*", "&")]
+                if upc and core[:len(upc)] == upc:
+                    nm = u["name"].replace("__", ".")
+                    rest = core[len(upc):]
+                    return nm + "".join((" " + p if p.startswith("as ") else p) for p in rest)
         if nm is None:
             sd = self.single_def(l)
             if sd and sd[2] == "call":
